@@ -32,6 +32,11 @@ def classify(case, detail):
     for key, cl, pat in KNOWN:
         if cl == clause and re.search(pat, detail):
             return key
+    # the planner's generic "cannot build planning paths" message is only attributed to the recorded
+    # finding when the configuration really has an entity that some subgraph knows by its second key only
+    if clause == "planning_never_fails" and "failed to create planning paths, missing paths: [], has field waiting for dependency: true" in detail \
+            and re.search(r'\(id \d+ \d+ \d+ "[^"]*\bkeyhop\b', case):
+        return "key-hop-planning-paths"
     return None
 
 
@@ -123,7 +128,7 @@ def run(chk):
     for f in glob.glob(os.path.join(rdir, "*.json")):
         os.remove(f)
     # recorded findings are not shrunk again on every run (their minimised cases live in corpus/C01)
-    skip = "conflict because they return conflicting types|not provided on this path"
+    skip = "conflict because they return conflicting types|not provided on this path|has field waiting for dependency"
     state, samples, allcases = {}, [], []
     corpus = os.path.join(vlib.ROOT, "corpus", "C01")
     if glob.glob(os.path.join(corpus, "*.json")):
